@@ -6,7 +6,8 @@ import shutil
 import vf
 
 PROBE = os.path.join(vf.HARNESS, "floatprobe")
-BACKENDS = [("none", []), ("libm", ["libm"]), ("mm", ["mm"]), ("std", ["std"])]
+# (libm+mm: both features on - libm has precedence, so that build is held to libm's bounds)
+BACKENDS = [("none", []), ("libm", ["libm"]), ("mm", ["mm"]), ("std", ["std"]), ("libm+mm", ["libm", "mm"])]
 
 
 def run(tier):
@@ -24,9 +25,9 @@ def run(tier):
         for name, feats in BACKENDS:
             vf._built.pop(("release", PROBE, tuple(feats)), None)
             binpath = vf.build_harness("release", crate=PROBE, features=feats, bin_name="floatprobe")
-            mine = os.path.join(d, "floatprobe_" + name)
+            mine = os.path.join(d, "floatprobe_" + name.replace("+", "_"))
             shutil.copy2(binpath, mine)
-            outp = os.path.join(d, "probe_%s.ndjson" % name)
+            outp = os.path.join(d, "probe_%s.ndjson" % name.replace("+", "_"))
             vf.run_harness(mine, [name, vf.seed(), tier], stdout_path=outp)
             with open(outp) as f:
                 for ln in f:
